@@ -275,6 +275,26 @@ pub fn gen_kind(r: &mut Rng, kind: &str, g: i64) -> Option<IG> {
             }
             IG::MultiPolygon(ms)
         }
+        // nested members: land with a lake, an island in the lake (which may carry a pond with an islet of its own), members
+        // listed in any order - the inner ones before the outer ones as often as after
+        "MultiPolygon-nested" => {
+            let s = g.max(8);
+            let land = vec![vec![(0, 0), (s, 0), (s, s), (0, s), (0, 0)], vec![(1, 1), (1, s - 1), (s - 1, s - 1), (s - 1, 1), (1, 1)]];
+            let (a, b) = (r.range(2, 3), r.range(s - 3, s - 2));
+            let mut ms = vec![land];
+            if r.chance(1, 2) && b - a >= 4 {
+                ms.push(vec![vec![(a, a), (b, a), (b, b), (a, b), (a, a)], vec![(a + 1, a + 1), (a + 1, b - 1), (b - 1, b - 1), (b - 1, a + 1), (a + 1, a + 1)]]);
+                if b - a >= 6 {
+                    ms.push(vec![vec![(a + 2, a + 2), (b - 2, a + 2), (a + 2, b - 2), (a + 2, a + 2)]]);
+                }
+            } else {
+                // an island that may touch the shore of the lake in a point
+                let t = if r.chance(1, 3) { 1 } else { a };
+                ms.push(vec![vec![(t, a), (b, a), (b, b), (t, a)]]);
+            }
+            r.shuffle(&mut ms);
+            IG::MultiPolygon(ms)
+        }
         "Rect" => IG::Rect(pt(r, g), pt(r, g)),
         "Triangle" => IG::Triangle(pt(r, g), pt(r, g), pt(r, g)),
         "GC-points" | "GC-lines" | "GC-areas" => {
@@ -331,7 +351,8 @@ pub fn gen_any(r: &mut Rng, g: i64) -> IG {
             60..=64 => "MLS-shared",
             65..=68 => "MLS-loop",
             69..=72 => "MLS-star3",
-            73..=80 => "MultiPolygon",
+            73..=78 => "MultiPolygon",
+            79..=80 => "MultiPolygon-nested",
             81..=85 => "Rect",
             86..=90 => "Triangle",
             91..=92 => "GC-points",
@@ -670,11 +691,46 @@ fn primitive_directions(m: i64) -> Vec<IP> {
     v
 }
 
+/// a comb with many teeth narrower than the gaps between them (or a plate with a row of holes wider than the webs): a
+/// line across the middle crosses the boundary dozens of times and most of what it crosses is OUTSIDE
+pub fn gen_wide_comb(r: &mut Rng) -> IG {
+    let k = r.range(9, 34);
+    let (tw, gap) = (r.range(1, 2), r.range(2, 4));
+    let h = r.range(4, 12);
+    let p = tw + gap;
+    let w = (k - 1) * p + tw;
+    let rings: Vec<Vec<IP>> = if r.chance(2, 3) {
+        let mut ring: Vec<IP> = vec![(0, 0), (w, 0)];
+        for i in (0..k).rev() {
+            let x = i * p;
+            let top = h + r.range(0, 3);
+            ring.push((x + tw, 1));
+            ring.push((x + tw, top));
+            ring.push((x, top));
+            ring.push((x, 1));
+        }
+        // the last pushed coordinate is (0, 1); close
+        ring.push((0, 0));
+        vec![ring]
+    } else {
+        // plate [-1, w+1] x [0, h] with k-1 holes: the gaps of the comb, one lattice step short of the plate's rim
+        let mut rings = vec![vec![(-1, 0), (w + 1, 0), (w + 1, h), (-1, h), (-1, 0)]];
+        for i in 0..k - 1 {
+            let x = i * p + tw;
+            rings.push(vec![(x, 1), (x, h - 1), (x + gap, h - 1), (x + gap, 1), (x, 1)]);
+        }
+        rings
+    };
+    let (tr, fl) = (r.chance(1, 2), r.chance(1, 2));
+    IG::Polygon(rings.into_iter().map(|rg| rg.into_iter().map(|(x, y)| { let y = if fl { h + 3 - y } else { y }; if tr { (y, x) } else { (x, y) } }).collect()).collect())
+}
+
 pub fn gen_large(r: &mut Rng) -> (IG, &'static str) {
-    match r.below(7) {
+    match r.below(8) {
+        7 => (gen_wide_comb(r), "large:comb_or_plate_with_many_teeth"),
         0 => {
             // star-shaped polygon: vertices at strictly increasing angles, radius varying between 60 % and 100 %
-            let n = r.range(40, 180) as usize;
+            let n = if r.chance(1, 4) { r.range(258, 330) } else { r.range(40, 180) } as usize;
             // (coordinates stay below ~1500: the exact arrangement works in i128 rationals, crossings of longer edges overflow it)
             let rad = r.range(400, 1200) as f64;
             let mut ring: Vec<IP> = vec![];
@@ -712,10 +768,10 @@ pub fn gen_large(r: &mut Rng) -> (IG, &'static str) {
             (IG::Polygon(rings), "large:polygon_with_hole_grid")
         }
         2 => {
-            let n = r.range(40, 200);
+            let n = if r.chance(1, 3) { r.range(257, 420) } else { r.range(40, 200) };
             let mut v: Vec<IP> = vec![];
             for i in 0..n {
-                v.push((10 * i + r.range(0, 6), r.range(-60, 60)));
+                v.push((4 * i + r.range(0, 2), r.range(-60, 60)));
             }
             (IG::LineString(v), "large:zigzag_linestring")
         }
@@ -786,7 +842,7 @@ pub fn large_partner(r: &mut Rng, a: &IG) -> IG {
     let (x0, x1) = (cs.iter().map(|p| p.0).min().unwrap_or(0), cs.iter().map(|p| p.0).max().unwrap_or(1));
     let (y0, y1) = (cs.iter().map(|p| p.1).min().unwrap_or(0), cs.iter().map(|p| p.1).max().unwrap_or(1));
     let v = if cs.is_empty() { (0, 0) } else { cs[r.below(cs.len() as u64) as usize] };
-    match r.below(8) {
+    match r.below(10) {
         0 => a.clone(),
         1 => a.translate(r.range(-3, 3), r.range(-3, 3)),
         2 => {
@@ -805,6 +861,29 @@ pub fn large_partner(r: &mut Rng, a: &IG) -> IG {
             IG::MultiLineString(idx[..k].iter().map(|&i| vec![v, (v.0 + m * dirs[i].0, v.1 + m * dirs[i].1)]).collect())
         }
         6 => IG::Line((x0 - 1, v.1), (x1 + 1, v.1)),
+        7 | 8 => {
+            // a short line through the MIDDLE of one segment of a (a proper crossing in the interior of both), or, failing a
+            // segment, through a coordinate
+            let segs: Vec<(IP, IP)> = all_segments(a).into_iter().filter(|s| s.0 != s.1).collect();
+            if segs.is_empty() {
+                IG::Line((v.0 - 1, v.1 - 2), (v.0 + 1, v.1 + 2))
+            } else {
+                // any segment; often one of the last few, or one that straddles a block of 16 / 32 / 64 / 128 / 256 coordinates
+                let n = segs.len();
+                let i = match r.below(3) {
+                    0 => n - 1 - r.below(n.min(10) as u64) as usize,
+                    1 => {
+                        let b = *r.pick(&[16usize, 32, 64, 128, 256]);
+                        let m = 1 + r.below(4) as usize;
+                        (m * b - 1).min(n - 1)
+                    }
+                    _ => r.below(n as u64) as usize,
+                };
+                let (p, q) = segs[i];
+                let d = (q.0 - p.0, q.1 - p.1);
+                IG::Line((p.0 - d.1, p.1 + d.0), (q.0 + d.1, q.1 - d.0))
+            }
+        }
         _ => {
             let (b, _) = gen_large(r);
             let bc = b.coords();
@@ -829,4 +908,110 @@ pub fn gen_large_pair(r: &mut Rng) -> Option<(IG, IG, &'static str)> {
         return None;
     }
     Some(if r.chance(1, 2) { (a, b, class) } else { (b, a, class) })
+}
+
+/// a long ring (hundreds of coordinates): a star polygon ring, or a rectangle whose sides carry a vertex at every lattice
+/// step (many collinear vertices in a row), closed; n coordinates including the closing one
+pub fn long_ring(r: &mut Rng, n: usize) -> Vec<IP> {
+    if r.chance(1, 2) {
+        let rad = r.range(400, 1200) as f64;
+        let mut ring: Vec<IP> = vec![];
+        let m = n.max(4) - 1;
+        for i in 0..m {
+            let a = 2.0 * std::f64::consts::PI * (i as f64) / (m as f64);
+            let rr = rad * (0.6 + 0.4 * r.f01());
+            let p = ((rr * a.cos()).round() as i64, (rr * a.sin()).round() as i64);
+            if ring.last() != Some(&p) {
+                ring.push(p);
+            }
+        }
+        let f = ring[0];
+        ring.push(f);
+        ring
+    } else {
+        // w + h = (n - 1) / 2 steps along the sides
+        let half = ((n.max(9) - 1) / 2) as i64;
+        let w = r.range(1, half - 1);
+        let h = half - w;
+        let mut ring: Vec<IP> = vec![];
+        for x in 0..w {
+            ring.push((x, 0));
+        }
+        for y in 0..h {
+            ring.push((w, y));
+        }
+        for x in 0..w {
+            ring.push((w - x, h));
+        }
+        for y in 0..h {
+            ring.push((0, h - y));
+        }
+        // start anywhere
+        let k = r.below(ring.len() as u64) as usize;
+        ring.rotate_left(k);
+        if r.chance(1, 2) {
+            ring.reverse();
+        }
+        let f = ring[0];
+        ring.push(f);
+        ring
+    }
+}
+
+/// a count just around / well beyond the block sizes code likes to use (16 .. 1024)
+pub fn long_count(r: &mut Rng) -> usize {
+    let base = *r.pick(&[16usize, 32, 64, 128, 256, 512]);
+    match r.below(4) {
+        0 => base + 1 + r.below(4) as usize,
+        1 => 2 * base + 1 + r.below(8) as usize,
+        2 => base + r.below(base as u64) as usize,
+        _ => r.range(130, 700) as usize,
+    }
+}
+
+/// many small members on a grid (17-100 of them, separated from one another), as MultiPolygon / MultiLineString /
+/// MultiPoint / GeometryCollection, and a partner that is near ONE member in the middle of the listing while its
+/// envelope overlaps the envelopes of many: a "street" between two rows or columns, a short segment in a gap, a point
+pub fn gen_many_members(r: &mut Rng) -> (IG, IG, &'static str) {
+    let (nx, ny) = (r.range(3, 10), r.range(3, 10));
+    let pitch = r.range(4, 9);
+    let size = r.range(1, pitch - 2);
+    let kind = r.below(4);
+    let mut cells: Vec<(i64, i64)> = vec![];
+    for j in 0..ny {
+        for i in 0..nx {
+            if !r.chance(1, 8) {
+                cells.push((i * pitch, j * pitch));
+            }
+        }
+    }
+    if r.chance(1, 2) {
+        r.shuffle(&mut cells);
+    }
+    let sq = |c: &(i64, i64)| vec![vec![(c.0, c.1), (c.0 + size, c.1), (c.0 + size, c.1 + size), (c.0, c.1 + size), (c.0, c.1)]];
+    let (a, class) = match kind {
+        0 => (IG::MultiPolygon(cells.iter().map(sq).collect()), "many:multipolygon_grid"),
+        1 => (IG::MultiLineString(cells.iter().map(|c| vec![(c.0, c.1), (c.0 + size, c.1 + size)]).collect()), "many:multilinestring_grid"),
+        2 => (IG::MultiPoint(cells.iter().map(|c| (c.0, c.1)).collect()), "many:multipoint_grid"),
+        _ => (IG::Collection(cells.iter().map(|c| IG::Polygon(sq(c))).collect()), "many:collection_grid"),
+    };
+    // gap between row j and row j+1: y in (j*pitch + size, (j+1)*pitch)
+    let j = r.range(0, ny - 2);
+    let y = j * pitch + size + r.range(1, pitch - size - 1).max(1);
+    let i = r.range(0, nx - 2);
+    let x = i * pitch + size + r.range(1, pitch - size - 1).max(1);
+    let b = match r.below(6) {
+        0 => IG::Line((-2, y), (nx * pitch + 2, y)),
+        1 => IG::Line((x, -2), (x, ny * pitch + 2)),
+        2 => IG::LineString(vec![(-2, y), ((nx * pitch) / 2, y), (nx * pitch + 2, y)]),
+        3 => IG::Point((x, y)),
+        4 => IG::Polygon(vec![vec![(-3, y), (nx * pitch + 3, y), (nx * pitch + 3, y), (-3, y)]]),
+        _ => IG::Line((x, y), (x + r.range(0, 2), y)),
+    };
+    let b = if b.valid() { b } else { IG::Point((x, y)) };
+    if r.chance(1, 2) { (a, b, class) } else { (b, a, class) }
+}
+
+pub fn all_segments_pub(a: &IG) -> Vec<(IP, IP)> {
+    all_segments(a).into_iter().filter(|s| s.0 != s.1).collect()
 }
